@@ -37,10 +37,15 @@ def fix_dict(obj: dict) -> dict:
 def report_suppressions(message):
     from .. import logging as ml
 
-    record = logging_seen_warnings.get(hash(message))
+    record = logging_seen_warnings.get(hash(str(message)))
     if record:
+        # report the message as a field of a JSON object so that it is sanitized again:
+        # inside a line of text its sensitive values would be written as they are
         ml.get_logger().warning(
-            f'The following message was suppressed {record} time(s) - "{message}"'
+            {
+                "message": f"The following message was suppressed {record} time(s)",
+                "suppressed": message,
+            }
         )
 
 
@@ -84,7 +89,7 @@ class GoogleLogger(object):
                 logging_seen_warnings[hashed] += 1
                 return "suppressed"
             logging_seen_warnings[hashed] = 0
-            atexit.register(report_suppressions, str(message))
+            atexit.register(report_suppressions, message)
 
         structured_log = {
             "severity": str(severity).split(".")[-1],
